@@ -2,8 +2,8 @@
 # Parts 1 (core reader) and 3 (selected hand-written helpers) + the totality search live here.
 # The lead appends part 2 (generated table layouts): props "C01/LayoutProps.v", the Layout coq_targets,
 # and a second bin — the lists below are plain lists for that purpose.
-PROPS = ["C01/Props.v", "C01/PropsH.v", "C01/LayoutProps.v"]
-COQ_TARGETS = ["C01/Core.vo", "C01/Tables.vo", "C01/Proofs.vo", "C01/ModelH.vo", "C01/ProofsH.vo", "C01/ProofsH2.vo", "C01/Examples.vo", "C01/LayoutProofs.vo", "C01/LayoutExamples.vo"]
+PROPS = ["C01/Props.v", "C01/PropsH.v", "C01/PropsI.v", "C01/LayoutProps.v"]
+COQ_TARGETS = ["C01/Core.vo", "C01/Tables.vo", "C01/Proofs.vo", "C01/ModelH.vo", "C01/ProofsH.vo", "C01/ProofsH2.vo", "C01/IterModel.vo", "C01/IterProofs.vo", "C01/ClosureModel.vo", "C01/ClosureProofs.vo", "C01/ClosureRule.vo", "C01/ClosureInst.vo", "C01/Examples.vo", "C01/LayoutProofs.vo", "C01/LayoutExamples.vo"]
 BINS = ["c01", "c01l"]
 
 SPEC = dict(
@@ -11,7 +11,7 @@ SPEC = dict(
     bin="c01",
     bins=BINS,
     coq_dir="C01",
-    coq_pre_cmd="python3 translators/layout_extract.py",
+    coq_pre_cmd="python3 translators/layout_extract.py && python3 translators/c01_closure_rule.py",
     props=PROPS,
     coq_targets=COQ_TARGETS,
     allowed_axioms=[],
@@ -49,6 +49,8 @@ SPEC = dict(
               "read-fonts/src/tables/glyf.rs: SimpleGlyph::{num_points, read_points_fast, points/points_impl}, PointIter::{next, advance_flags, advance_points}, resolve_coords_len",
               "read-fonts/src/tables/variations.rs: PackedPointNumbers::{count, count_and_count_bytes, total_len, split_off_front, iter}, PackedPointNumbersIter/PointRunIter::next, read_control_byte, PackedDeltas::{consume_all, iter}, count_all_deltas, DeltaRunIter::next, DeltaRunType::new",
               "read-fonts/src/tables/cmap.rs: Cmap12::{group, lookup_glyph_id, iter, iter_with_limits}, Cmap12Iter::next; generated Cmap12::read + groups()",
+              "round 4 (IterModel.v): read-fonts/src/tables/varc.rs VarcComponentIter::next + VarcComponent::parse (+ DeltaRunIter::end), glyf.rs ComponentIter::next and ComponentGlyphIdFlagsIter::next, name.rs CharIter::next — each an instance of the generic iter_progress theorem, tied by ops 24-27",
+              "round 4 (ClosureModel.v + generated ClosureRule.v): read-fonts/src/tables/gsub/closure.rs ClosureCtx::{closure_glyphs, needs_to_do_lookup, add_todo, pop_a_todo} and Gsub::closure_glyphs_once over abstract lookup semantics; the recording rule of needs_to_do_lookup is re-extracted from the source on every run (translators/c01_closure_rule.py)",
               "read-fonts/src/tables/postscript/dict.rs: parse_bcd (digit buffer index arithmetic, nibble decoding, f64 syntax acceptance; the Fixed value is not modelled), tied through dict::tokens",
               "read-fonts/generated/generated_postscript.rs Index1/Index2::read + getters; src/tables/postscript/index.rs read_offset, get_offset, get",
               "read-fonts/src/tables/loca.rs Loca::{read, len, get_raw}; src/array.rs VarLenArray::{get, iter}, ComputedArray::{new, get, iter}; read.rs VarSize::read_len_at; post.rs PString::read; avar.rs SegmentMaps::{read, read_len_at}; gvar.rs U16Or32"],
